@@ -170,7 +170,7 @@ func TestC20(t *testing.T) {
 		key   []byte
 	}
 	var dcs []dcase
-	tables := [][]uint32{{0, 2, 5, 7, 10, 11}, {0, 1, 3, 11}, {0, 2, 4, 5}, {0, 3, 4, 6, 9, 11}, {0, 2, 10, 11}, {0, 5, 8, 13}}
+	tables := [][]uint32{{0, 2, 5, 7, 10, 11}, {0, 1, 3, 11}, {0, 2, 4, 5}, {0, 3, 4, 6, 9, 11}, {0, 2, 10, 11}, {0, 5, 8, 13}, {0, 1, 4, 5, 7, 11}}
 	for ti, pr := range tables {
 		for ki, k := range c10Keys {
 			if !r.Thorough() && (ti+ki)%2 == 1 {
@@ -196,8 +196,8 @@ func TestC20(t *testing.T) {
 			plain := patBytes(77, 0, 12*2048)
 			copy(plain, regionTable(dc.pairs))
 			if dc.kind == "3k3y" {
-				if dc.pairs[1] < 2 {
-					continue // the watermark area (sectors 1-2) must lie in the first plain region
+				if dc.pairs[1] < 1 {
+					continue // watermark and key (sector 1) must be readable without the key
 				}
 				copy(plain[0xF70:], wmEnc)
 				copy(plain[0xF80:], dc.key)
